@@ -278,12 +278,15 @@ PROPS = {
         ],
     },
     "C12": {
-        "lean_modules": ["TableauVerif.Props.C12"],
-        "oracles": ["c12.range", "c12.contig"],
+        "lean_modules": ["TableauVerif.Props.C12", "TableauVerif.Props.C12Contig"],
+        "oracles": ["c12.range", "c12.contig", "c01.rt"],
         "streams": [
             ("corr.fieldprop.range", 12000, 400000),
             ("e2e.C12.contiguity", 1200, 60000),
             ("corr.confgen.tableParse", 4000, 100000),
+            # "a satisfied constraint never causes an error or changes the output": well-formed sheets written by
+            # the specification must be accepted with exactly their data (deduced uniqueness, contiguity, sizes)
+            ("e2e.C01.roundtrip", 4000, 150000),
         ],
         "assumptions": [
             "modelled: fieldprop.CheckInRange (signed/unsigned integer kinds, string length), CheckMapKeySequence (signed keys), GetSize/IsFixed; float ranges answered by the implementation only (not modelled)",
@@ -318,7 +321,7 @@ PROPS = {
         ],
     },
     "C07": {
-        "lean_modules": ["TableauVerif.Props.C07", "TableauVerif.Props.C07Header"],
+        "lean_modules": ["TableauVerif.Props.C07", "TableauVerif.Props.C07Desc", "TableauVerif.Props.C07Header"],
         "oracles": ["c07.position", "c07.desc", "c07.corrupt", "c07.skip", "tp.parse", "pg.errpos"],
         "streams": [
             ("corr.excel.position", 4000, 200000),
